@@ -1,11 +1,11 @@
 SPECIFICATION Spec
 CONSTANTS MaxN = 3
-Coords <- C2
+Coords <- C3
 CtrlCoords <- C2
-Letters <- LettersAll
+Letters <- LettersForget
 FixZ = TRUE
 FixDeg = TRUE
 FixZeroL = TRUE
-ForgetCp = TRUE
+ForgetCp = FALSE
 INVARIANTS Refines InRange
 CHECK_DEADLOCK FALSE
